@@ -6,7 +6,9 @@
 From QV Require Import Spec.MsgWriterS.
 From QV Require Import Base.ListX Model.MsgWriter Proofs.MsgWriterP Proofs.MsgWriterScanP
      Proofs.MsgWriterNameP Proofs.MsgWriterInvP Proofs.MsgWriterTopP Proofs.MsgWriterClosP
-     Proofs.MsgWriterNameSP Proofs.MsgWriterOpP Proofs.MsgWriterStepP.
+     Proofs.MsgWriterNameSP Proofs.MsgWriterLayP Proofs.MsgWriterOpP Proofs.MsgWriterStepP
+     Proofs.MsgWriterMsgP Proofs.MsgWriterDecP Proofs.MsgWriterRtP.
+From QV Require Import Spec.MsgWriterAbsS.
 
 (* For EVERY operation sequence from a fresh writer, the state satisfies
    HEADER_SIZE <= rr_start <= cursor <= available, available + reservations = limit <= |buffer|. *)
@@ -106,6 +108,48 @@ Theorem c12_no_spurious_truncation_question : forall d g L n qt qc d',
   w_avail (d_w d) < w_cursor (d_w d) + length (nm_wire n) + 4.
 Proof. exact question_no_spurious. Qed.
 
+(* Every operation preserves, together with [AInv], the LAYOUT invariant [LInv]: the octets of
+   [12, rr_start) are the questions and those of [rr_start, cursor) the records of the abstract message
+   [astep ... ] denoted by the operations that succeeded (Spec/MsgWriterAbsS.v), in order, section by
+   section, with the section counters equal to the list lengths; every name chunk is the plain wire
+   form or leading labels + one pointer into the label starts of the layout. *)
+Theorem c12_layout_invariant_all_ops : forall d g y A L o, AInv d g L -> LInv d y A L -> op_wf o ->
+  op_contract d g o ->
+  match step d o with
+  | Ok (d', r) => exists L' y', AInv d' (gstep d g o r) L' /\ LInv d' y' (astep A o r) L'
+  | _ => False
+  end.
+Proof. exact step2_all. Qed.
+
+(* MESSAGE-LEVEL ROUND TRIP.  For every operation sequence obeying the hint contract, with arguments of
+   the sizes the Rust types enforce ([op_wf], [op_wf2]): the run does not panic and the independent
+   RFC 1035 decoder of Spec/MsgWriterS.v, applied to the finished message, succeeds and returns, in
+   order, the questions and the answer / authority / additional records of the abstract message of the
+   operations that succeeded ([areplay]), followed in the additional section by the OPT and TSIG
+   pseudo-records of the final writer state: owner names and names inside RDATA equal exactly when
+   written in case-preserving / disabled mode and modulo ASCII case otherwise ([name_rel]), type, class,
+   TTL (clamped per RFC 2181 s.8), RDATA octets and the compressible/uncompressible classification of
+   every RDATA name.  Partial w.r.t. the property text: the header id/flags/RCODE are not covered, and
+   the OPT/TSIG values are those of the writer's final state, not re-derived from the operations. *)
+Theorem c12_roundtrip_partial : forall buf limit w0 ops, writer_new buf limit = Ok w0 ->
+  run_contract (mkD w0 []) g0 ops -> Forall op_wf ops -> Forall op_wf2 ops ->
+  exists rr, run_writer buf limit ops = Ok rr /\
+    match rr_final rr with
+    | Some (len, b) =>
+      exists d m, run (mkD w0 []) ops = Ok (d, rr_outcomes rr, true) /\
+        decode_msg (firstn len b) = Some m /\
+        Forall2 q_rel (am_qs (areplay am0 ops (rr_outcomes rr))) (m_qs m) /\
+        Forall2 (rr_rel xparts) (am_an (areplay am0 ops (rr_outcomes rr))) (m_an m) /\
+        Forall2 (rr_rel xparts) (am_ns (areplay am0 ops (rr_outcomes rr))) (m_ns m) /\
+        Forall2 (rr_rel xparts) (am_ar (areplay am0 ops (rr_outcomes rr)) ++ pseudo (d_w d)) (m_ar m)
+    | None => True
+    end.
+Proof. exact roundtrip. Qed.
+
+(* The component table regenerated from the Rust source is the RFC layout of the specification. *)
+Theorem c12_component_table_is_rfc_layout : forall cl ty, layout cl ty = map sf_of (component_types cl ty).
+Proof. exact layout_table. Qed.
+
 (* Non-vacuity of the contract-threaded run: the example run below obeys it. *)
 (* Non-vacuity: a concrete run in which a question is written, a record compresses its owner
    against the QNAME and its RDATA against the owner, and a too-large record fails and is
@@ -142,6 +186,11 @@ Proof.
   all: try (intros m E; inversion E; subst; repeat constructor).
 Qed.
 
+Example c12_wf_example : Forall op_wf ex_ops /\ Forall op_wf2 ex_ops.
+Proof.
+  split; repeat constructor; simpl; try lia; try (apply wf_bytesb_spec; reflexivity).
+Qed.
+
 Print Assumptions c12_invariant.
 Print Assumptions c12_limit.
 Print Assumptions c12_atomic.
@@ -155,3 +204,6 @@ Print Assumptions c12_run_never_panics.
 Print Assumptions c12_no_spurious_truncation_rr.
 Print Assumptions c12_no_spurious_truncation_rrset.
 Print Assumptions c12_no_spurious_truncation_question.
+Print Assumptions c12_layout_invariant_all_ops.
+Print Assumptions c12_roundtrip_partial.
+Print Assumptions c12_component_table_is_rfc_layout.
